@@ -190,6 +190,18 @@ def hostile_pickles(rng):
     return out
 
 
+def truncated_frames():
+    out = []
+    for proto in range(5):
+        p = pickle.dumps([("foo.a", (NOW, 1.5)), ("foo.b", (NOW, 2))], protocol=proto)
+        f = struct.pack(">I", len(p)) + p
+        for n in list(range(0, 13)) + [len(f) // 2, len(f) - 1]:
+            out.append(f[:n])
+        out.append(struct.pack(">I", 64) + p[:1])          # a length prefix announcing more than is sent
+        out.append(struct.pack(">I", 64) + p[:2])
+    return out
+
+
 def hostile_plain(rng):
     return [b"foo.a 1 2\n" * 5, b"a" * 70000 + b"\n", b"foo.a 1 2", b"\x00\x01\x02\xff\n", b"\n\n\n", b" \n", b"foo.a\t1\t2\n", b"foo.a 1\n", b"foo.a 1 2 3 4\n",
             b"foo.a nan nan\n", b"foo.a 1e999 99999999999999999999\n", b";;=;= 1 2\n", b"foo.a;t=v 1 2\n", bytes(rng.randrange(256) for _ in range(3000)),
@@ -280,6 +292,10 @@ def gen_subs(rng, tier):
                   inputs=[{"kind": "pickle_tcp", "b": p.hex()} for p in hostile_pickles(rng)], wait_ms=600))
     subs.append(S(cmds=[route_cmd(rng, "sendAllMatch"), agg_cmd(rng, "1", "0")],
                   inputs=[{"kind": rng.choice(["plain_tcp", "plain_udp"]), "b": p.hex()} for p in hostile_plain(rng)], wait_ms=600))
+    # F2. every short prefix of a well-formed frame of each protocol (a peer that closes, or a datagram that ends, inside the
+    # length prefix, the protocol peek or the payload), over TCP and UDP
+    subs.append(S(cmds=[route_cmd(rng, "sendAllMatch")],
+                  inputs=[{"kind": k, "b": p.hex()} for p in truncated_frames() for k in ("pickle_tcp", "pickle_udp")], wait_ms=600))
     subs.append(S(toml='validation_level_legacy = "strict"\nvalidation_level_m20 = "strict"\nvalidate_order = true\n',
                   cmds=[route_cmd(rng, "sendFirstMatch", ndest=2)],
                   inputs=[{"kind": "plain_tcp", "b": p.hex()} for p in hostile_plain(rng)], wait_ms=400))
